@@ -849,6 +849,20 @@ fn main() {
     if let Some(rp) = &args.replay {
         let t = std::fs::read_to_string(rp).expect("replay file");
         let v: serde_json::Value = serde_json::from_str(&t).expect("json");
+        if let Some(k) = v["input"]["kind"].as_str() {
+            if k == "diffmap" || k == "mutators" || k == "traversal" {
+                // these checks are tiny: re-run the whole enumeration on the current tree and look for the recorded case
+                let (_, _, fails) = if k == "diffmap" { plain::check_diffmap(5) } else { plain::check_mutators(5) };
+                let hit: Vec<&plain::PFail> = fails.iter().filter(|f| f.input == v["input"]).collect();
+                println!("replaying {} on the real crate", v["input"]);
+                if let Some(f) = hit.first() {
+                    println!("FAILS: [{}] {}\n  expected: {}\n  observed: {}", f.classification, f.what, f.expected, f.observed);
+                    std::process::exit(1);
+                }
+                println!("passes on the current tree ({} other failing case(s) in the same enumeration)", fails.len());
+                std::process::exit(0);
+            }
+        }
         if v["input"]["kind"].as_str() == Some("obs") || v["input"]["kind"].as_str() == Some("obs-held") {
             std::process::exit(replay_obs(&v));
         }
